@@ -62,8 +62,13 @@ def make_value(ex, h, l, kind, fn=''):
         if k == 1: return h.dt(2021, 1, 15, 23, 59, 59, 0, -18000, 'America/New_York')      # local date != UTC date
         return h.dt(2021, 6, 15, 1, 30, 0, 0, 19800, 'Asia/Kolkata')                          # local date != UTC date, fractional offset
     if kind == 'list':
-        n = ex.pick(5 if DEEP[0] else 4)
-        return h.list_([h.marker(), h.str_([l.byte([(0x61, 0x7a)])]), h.num(3.0), h.list_([h.na()])][:n])
+        # three element mixes: scalars only; dicts with a non-dict in between (grid construction from rows); a non-dict first
+        k = ex.pick(3)
+        if k == 0: els = [h.marker(), h.str_([l.byte([(0x61, 0x7a)])]), h.num(3.0), h.list_([h.na()])]
+        elif k == 1: els = [h.dict_([(b'a', h.num(1.0))]), h.str_(list(b'x')), h.dict_([(b'b', h.num(2.0))]), h.dict_([(b'a', h.marker()), (b'c', h.na())])]
+        else: els = [h.marker(), h.dict_([(b'a', h.num(1.0))]), h.dict_([(b'b', h.str_([l.byte([(0x61, 0x7a)])]))])]
+        n = ex.pick(min(len(els), 4 if DEEP[0] else 3) + 1)
+        return h.list_(els[:n])
     if kind == 'dict':
         pairs = []
         if ex.pick(2): pairs.append((b'a', h.num(1.0)))
